@@ -145,8 +145,14 @@ fn run_inner<P: Property>(args: &RunArgs, root: &PathBuf, start: Instant) -> i32
                     }
                 }
                 for v in rep.violations {
-                    if !agg.violations.iter().any(|x| x.signature == v.signature) {
-                        agg.violations.push(v);
+                    let size = |x: &FoundViolation| serde_json::to_string(&x.spec).map(|s| s.len()).unwrap_or(usize::MAX);
+                    match agg.violations.iter().position(|x| x.signature == v.signature) {
+                        None => agg.violations.push(v),
+                        Some(i) => {
+                            if size(&v) < size(&agg.violations[i]) {
+                                agg.violations[i] = v;
+                            }
+                        }
                     }
                 }
                 for (k, v) in rep.known_hits {
